@@ -168,3 +168,27 @@ PROPS["C18"] = {
             thorough={"cases": 20000, "size": 200, "shards": 16}),
     ],
 }
+
+PROPS["C06"] = {
+    "level": "fault_enumeration",
+    "technique": "fault-injection property-based testing (rapidcheck) + exhaustive single/double fault enumeration on small streams; safety + bounded-recovery oracle",
+    "rule": "cases = (base stream of 1..3 endpoints x 3..8 (thorough ..12) messages, unsegmented or 2..5 segments, frames from the "
+            "independent segmenter (3/4) or from the library's Encoder (1/4); fault sequence of 1..3 (thorough ..6) of drop / duplicate / "
+            "swap / move / corrupt-version / corrupt-message-type); plus exhaustively every single fault at every position of 24 "
+            "(thorough 40) fixed base streams of <=12 frames (thorough: every pair on 6 of them); non-trivial when a fault hits a frame "
+            "of a segmented message AND a complete message is delivered afterwards on that endpoint; distinct = distinct serialized cases",
+    "assumptions": COMMON_ASSUMPTIONS + ["payload bytes are unique per sent packet (packet id in the first bytes), so any mixture, hole or "
+                                         "repetition matches no sent packet",
+                                         "for a message one of whose frames had its version / message type corrupted only the payload bytes are "
+                                         "compared (two corruptions can rewrite a message consistently)"],
+    "level_text": "Fault enumeration: all single faults (and all pairs, thorough) at every position of small streams, and generated fault "
+                  "sequences on larger ones. Safety: every delivered packet is byte-identical to a sent one with its header fields; "
+                  "recovery: a message whose frames arrive complete, in order, uncorrupted and uninterrupted on its endpoint is delivered "
+                  "when its last frame arrives.",
+    "level_note": "Depends on the decoder only for the oracle-built streams; encoder-built streams are used only if they round-trip unfaulted.",
+    "stages": [
+        pbt("exhaustive_faults", "pbt_C06", mode="enum", quick={}, thorough={"timeout": 14400}),
+        pbt("random_faults", "pbt_C06", quick={"cases": 1500, "size": 100, "shards": 4},
+            thorough={"cases": 10000, "size": 200, "shards": 16}),
+    ],
+}
